@@ -3,7 +3,8 @@ from terms import FA, show, mk, ty_of, is_const, const_val, T, subterms
 from facts import callee_of
 from intervals import Intervals
 from paths import enum_paths
-from algebra import fact_of_guard, canon_le, lin
+from algebra import canon_le, lin
+from algebra import fact_of_guard as _fact_of_guard_alg
 import libmodel
 import panics
 
@@ -11,6 +12,20 @@ U = "util::"
 CHARS = U + "Df88591StringChars"
 DFS = U + "Df88591String::<N>"
 AS = U + "array_string::ArrayString::<N>"
+
+
+def fact_of_guard(g):
+    """algebra.fact_of_guard with integer `match` arms (x == v / x != v) rendered as comparisons (an `if x == 0` and a `match x { 0 => .. }`
+    are the same test)"""
+    fc = _fact_of_guard_alg(g)
+    if fc and fc[0] == "val":
+        t = fc[1]
+        tn = (ty_of(t) or {}).get("name") or "usize"
+        if fc[2] == "eq":
+            return ("Eq", t, mk("const", tn, fc[3]))
+        if fc[2] == "ne" and len(fc[3]) == 1:
+            return ("Ne", t, mk("const", tn, list(fc[3])[0]))
+    return fc
 
 
 def _apply(iv, fc, x):
@@ -365,6 +380,16 @@ def rule_capacity(prog, res):
                             if truth and s not in body:
                                 ok = True
                                 d = "break on the first Err of try_push"
+                    if c.op == "discr" and c.args[0] is r:
+                        # match on the result itself (a desugared try_for_each / `?`): Err leaves the loop, Ok goes on
+                        leaves = {}
+                        for s in f.succ(x):
+                            for g in fa.edge_guard(x, s):
+                                if g[0] is c and g[1] == "eq":
+                                    leaves[g[2]] = not _stays_in_loop(f, s, body)
+                        if leaves.get(1) is True and leaves.get(0) is False:
+                            ok = True
+                            d = "leaves the loop on the first Err of try_push (match on the result)"
             # all characters are offered in order: the loop is driven by the input iterator; try_push is the only mutation
             muts = [callee_of(tt) for bb, tt in f.calls() if fa.call_args(bb) and fa.call_args(bb)[0].op == "ref" and ty_of(fa.call_args(bb)[0]) is None
                     and callee_of(tt) not in (tp,) and "next" not in callee_of(tt)]
@@ -385,7 +410,28 @@ def rule_capacity(prog, res):
         res.fn(f)
         calls = [callee_of(t) for b, t in f.calls()]
         ok = "core::str::<impl str>::chars" in calls and any(c and c.endswith("Iterator::collect") for c in calls)
+        if not ok:
+            # the same thing without the detour through collect(): Self::from_iter(value.chars())
+            fa_ = FA(f, prog)
+            fi = [(b, t) for b, t in f.calls() if callee_of(t) == "<util::Df88591String<N> as core::iter::FromIterator<char>>::from_iter"]
+            if len(fi) == 1 and len(calls) == 2 and not f.loops():
+                a0 = fa_.call_args(fi[0][0])[0]
+                ok = a0.op == "call" and a0.args[0] == "core::str::<impl str>::chars" and fi[0][1]["dest"]["local"] == 0
         res.ob("X-cap", "Df88591String::from(&str) | = chars().collect() (uses from_iter)", ok, str(calls), f.loc)
+
+
+def _stays_in_loop(f, s, body):
+    """s (or the block an unconditional jump chain from s ends in) belongs to the loop"""
+    seen = 0
+    while s not in body and f.term(s)["k"] == "goto" and seen < 4:
+        s = f.term(s)["target"]
+        seen += 1
+    return s in body
+
+
+def _short_fact(fc):
+    """len(..) < n, in either spelling (`len < n` true, or `n <= len` false which reads n > len)"""
+    return len(fc) == 3 and ((fc[0] == "Lt" and fc[1].op == "len") or (fc[0] == "Gt" and fc[2].op == "len"))
 
 
 def rule_utf8_writers(prog, res):
@@ -504,14 +550,14 @@ def rule_utf8_writers(prog, res):
                 reason = None
                 for g in gs:
                     fc = _fg(g)
-                    if fc[0] == "Lt" and fc[1].op == "len" and variant == "BufferOverflow":
+                    if _short_fact(fc) and variant == "BufferOverflow":
                         reason = "short"
                     if fc[0] == "discr" and fc[1].op == "call" and fc[1].args[0] == "core::str::from_utf8" and variant == "InvalidUtf8String" \
                             and ((fc[2] == "eq" and fc[3] == 1) or (fc[2] == "ne" and 0 in fc[3])):
                         reason = "utf8"
                 # every *other* branch fact on this path must also hold on an accepting path (i.e. it is not a rejection condition)
-                others = [g for g in gs if not (_fg(g)[0] == "Lt" and _fg(g)[1].op == "len") and not (_fg(g)[0] == "discr" and _fg(g)[1].op == "call"
-                                                                                               and _fg(g)[1].args[0] == "core::str::from_utf8")]
+                others = [g for g in gs if not _short_fact(_fg(g)) and not (_fg(g)[0] == "discr" and _fg(g)[1].op == "call"
+                                                                           and _fg(g)[1].args[0] == "core::str::from_utf8")]
                 others = [g for g in others if not (g[0].op == "discr" and g[0].args[0].op == "call" and g[0].args[0].args[0].endswith("Try>::branch"))]
                 # facts shared with the accepting path are not rejection conditions
                 others = [g for g in others if (g[0], g[1], g[2]) not in accept]
